@@ -29,7 +29,16 @@ def num(v):
     return v // S if v % S == 0 else v / S
 
 
-def lit(v):
+def lit(v, ty=''):
+    """Python literal of a x8 value; ty = i int | f float | b bool | '' (int when integral)"""
+    if ty == 'b':
+        assert v in (0, S), v
+        return repr(v == S)
+    if ty == 'f':
+        return repr(v / S)
+    if ty == 'i':
+        assert v % S == 0, v
+        return repr(v // S)
     return repr(num(v))
 
 
@@ -93,12 +102,13 @@ def source(d):
             if p['bk'] == 'ctl':
                 if p['an'] != 'none':
                     s += ': %r' % p['an']
+                ty = p.get('dty') or [''] * len(p['dv'])
                 if p['dk'] == 'None':
                     s += '=None'
                 elif p['dk'] == 'scalar':
-                    s += '=' + lit(p['dv'][0])
+                    s += '=' + lit(p['dv'][0], ty[0])
                 elif p['dk'] == 'tuple':
-                    s += '=(' + ''.join(lit(x) + ', ' for x in p['dv']) + ')'
+                    s += '=(' + ''.join(lit(x, t) + ', ' for x, t in zip(p['dv'], ty)) + ')'
             ps.append(s)
         body = ['    _route(%r, %s)' % (p['n'], p['n']) for p in f['params']]
         for c in range(1, len(funcs) + 1):
